@@ -4,6 +4,7 @@ package main
 
 import (
 	"bytes"
+	"crypto/sha256"
 	"encoding/binary"
 	"math"
 	"math/bits"
@@ -278,7 +279,8 @@ func opGcsBuilder(_ *HState, a Event) Event {
 }
 
 func opBuilderHist(_ *HState, a Event) Event {
-	e := with(a, "builderr", false, "keyerr", false, "n", 0, "pzero", false, "mzero", false)
+	e := with(a, "builderr", false, "keyerr", false, "n", 0, "pzero", false, "mzero", false, "nbytes", []int{}, "direct", []int{})
+	key := [16]byte{1, 2, 3}
 	var added [][]int
 	var steps []interface{}
 	pp, msg := guard(func() {
@@ -330,6 +332,11 @@ func opBuilderHist(_ *HState, a Event) Event {
 				}
 			case "SetKey":
 				b.SetKey([16]byte{byte(gInt(s, "v"))})
+				if !latched {
+					key = [16]byte{byte(gInt(s, "v"))}
+				}
+			case "Build": // an intermediate Build (its result is dropped): later setters and entries still count
+				b.Build()
 			}
 			steps = append(steps, rec)
 		}
@@ -343,6 +350,30 @@ func opBuilderHist(_ *HState, a Event) Event {
 		e["builderr"] = err != nil
 		if err == nil {
 			e["n"] = int(f.N())
+			// the filter of the builder's FINAL key, P, M and entries, built directly (BuildGCSFilter itself is judged bit
+			// by bit in the Gcs events): the builder's result is byte-identical
+			// (P = 1 with M near 2^32 makes hundreds of megabytes of unary digits: the two serialisations are compared
+			// through their SHA-256 digests)
+			nb, _ := f.NBytes()
+			dg := sha256.Sum256(nb)
+			e["nbytes"] = ints(dg[:])
+			seen := map[string]bool{}
+			var items [][]byte
+			for _, it := range added {
+				bs := make([]byte, len(it))
+				for i, x := range it {
+					bs[i] = byte(x)
+				}
+				if !seen[string(bs)] {
+					seen[string(bs)] = true
+					items = append(items, bs)
+				}
+			}
+			if d, derr := gcs.BuildGCSFilter(uint8(p), uint64(m), key, items); derr == nil {
+				db, _ := d.NBytes()
+				dd := sha256.Sum256(db)
+				e["direct"] = ints(dd[:])
+			}
 		}
 	})
 	if added == nil {
